@@ -204,7 +204,7 @@ class ProbedHost(utmi.UTMIHost):
 class DeviceRig:
     """One elaboration of USBDevice + endpoint serves many scenarios (sim.reset() in between)."""
 
-    def __init__(self, make_endpoint):
+    def __init__(self, make_endpoint, make_others=None):
         use_repo()
         from amaranth.sim import Simulator
         from luna.gateware.usb.usb2.device import USBDevice
@@ -212,6 +212,9 @@ class DeviceRig:
         self.dev = USBDevice(bus=UTMIInterface())
         self.ep = make_endpoint()
         self.dev.add_endpoint(self.ep)
+        self.others = make_others() if make_others else []      # further endpoints of the same device
+        for o in self.others:
+            self.dev.add_endpoint(o)
         self.sim = Simulator(self.dev)
         self.sim.add_clock(1 / 12e6, domain="usb")
         self.sim.add_testbench(self._bench)
@@ -991,8 +994,15 @@ def make_signal_rig(width, big, ep_num):
     def mk():
         from luna.gateware.usb.usb2.endpoints.status import USBSignalInEndpoint
         return USBSignalInEndpoint(width=width, endpoint_number=ep_num, endianness="big" if big else "little")
-    rig = DeviceRig(mk)
-    rig.ep_num, rig.width, rig.big = ep_num, width, big
+    other_ep = ep_num % 15 + 1
+
+    def mk_others():
+        # a second IN endpoint of the same device that always has data: its acknowledged IN transactions are
+        # bus traffic the status endpoint must ignore
+        from luna.gateware.usb.usb2.endpoints.stream import USBStreamInEndpoint
+        return [USBStreamInEndpoint(endpoint_number=other_ep, max_packet_size=8)]
+    rig = DeviceRig(mk, mk_others)
+    rig.ep_num, rig.width, rig.big, rig.other_ep = ep_num, width, big, other_ep
     return rig
 
 
@@ -1005,14 +1015,21 @@ def signal_scenario(ops, rng):
                                             d cycles after the first cycle of the token, {"stall": [offs]} the PHY
                                             stalls exactly offs cycles after the end of the token, {"ack_delay": n}
                                             idle cycles between the answer and the ACK
-            ("tok", pid, addr, ep, ack)     any other token; ack: it is another device's IN transaction, which the
-                                            host acknowledges (the other device's data is not visible to us)"""
+            ("tok", pid, addr, ep, ack[, hd[, extras]])   any other token; ack: it is an IN transaction of another
+                                            endpoint of this device (rig.other_ep answers with data) or of another
+                                            device (its data is not visible to us), which the host acknowledges;
+                                            hd: the host sends a data packet after the OUT/SETUP token"""
     async def run(ctx, host, rig):
         ep = rig.ep
         width = rig.width
-        st = {"win_open": False, "win": [], "p": 0.0, "racy": False}
+        st = {"win_open": False, "win": [], "p": 0.0, "racy": False, "own": False, "ob": 1}
+        other = rig.others[0]
 
         def pre(ctx, host):
+            ctx.set(other.stream.valid, 1)             # the other IN endpoint: one-byte transfers, always available
+            ctx.set(other.stream.last, 1)
+            ctx.set(other.stream.first, 1)
+            ctx.set(other.stream.payload, st["ob"])
             p = st["p"]
             if st["win_open"]:
                 p = 0.25 if st["racy"] else 0.0
@@ -1020,6 +1037,10 @@ def signal_scenario(ops, rng):
                 ctx.set(ep.signal, rng.getrandbits(width))
 
         def post(ctx, host):
+            if ctx.get(other.stream.ready):
+                st["ob"] = st["ob"] % 255 + 1
+            if ctx.get(ep.interface.tx.valid):
+                st["own"] = True
             if st["win_open"]:
                 if ctx.get(rig.dev.utmi.tx_valid):
                     st["win_open"] = False
@@ -1048,12 +1069,19 @@ def signal_scenario(ops, rng):
                 steps.append({"e": "sof"})
             elif k in ("poll", "tok"):
                 extras = {}
+                hd = False
                 if k == "poll":
                     ack, racy, busy = op[1:4]
                     extras = op[4] if len(op) > 4 else {}
                     tok = ("IN", 0, rig.ep_num)
                 else:
                     tok, ack, racy, busy = op[1:4], op[4], False, 0.0
+                    hd = bool(op[5]) if len(op) > 5 else False
+                    extras = op[6] if len(op) > 6 else {}
+                    if tok[2] == "other":
+                        tok = (tok[0], tok[1], rig.other_ep)
+                    busy = extras.get("busy", 0.0)
+                st["own"] = False
                 st["win"] = [ctx.get(ep.signal)]
                 st["racy"] = racy
                 st["win_open"] = True
@@ -1062,15 +1090,21 @@ def signal_scenario(ops, rng):
                     host.at(d, lambda ctx, v=v: ctx.set(ep.signal, v & ((1 << width) - 1)))
                 await host.token(ctx, tok[0], tok[1], tok[2])
                 host.stall_at(extras.get("stall", ()))
+                if hd:
+                    await host.idle(ctx, 2)
+                    await host.data(ctx, "DATA0", [rng.randrange(256) for _ in range(8 if tok[0] == "SETUP" else rng.randint(0, 4))])
                 resp = await host.response(ctx, timeout=12)
                 st["win_open"] = False
-                rec = {"e": "tok", "pid": tok[0], "addr": tok[1], "ep": tok[2], "win": list(st["win"]), "ack": False, "resp": resp}
-                if ack and (k == "tok" or resp["kind"] == "data"):
+                rec = {"e": "tok", "pid": tok[0], "addr": tok[1], "ep": tok[2], "win": list(st["win"]), "ack": False,
+                       "hd": hd, "resp": resp}
+                same_dev_foreign = (k == "tok" and tok[1] == 0)
+                if ack and (resp["kind"] == "data" if (k == "poll" or same_dev_foreign) else True):
                     await host.idle(ctx, extras["ack_delay"] if "ack_delay" in extras else rng.randint(1, 3))
                     await host.handshake(ctx, "ACK")
                     rec["ack"] = True
                 await host.idle(ctx, rng.randint(1, 4))
                 st["p"] = 0.0
+                rec["own"] = st["own"]
                 steps.append(rec)
             else:
                 raise ValueError(op)
@@ -1086,10 +1120,15 @@ def signal_random_ops(rng, n_polls, ep_num, clean):
     pending = False                        # steering only: last answer not acknowledged
     for _ in range(n_polls):
         if rng.random() < 0.35:
-            kind = rng.choice(FOREIGN_KINDS + ("sof", "other_device_acked"))
+            kind = rng.choice(FOREIGN_KINDS + ("sof", "other_device_acked", "other_ep_acked", "other_ep_acked", "out_other_ep_data"))
             if not clean and pending and rng.random() < 0.6:
                 kind = "other_device_acked"
-            if kind == "sof":
+            if kind == "other_ep_acked":        # 1..2 complete, acknowledged IN transactions of another endpoint of this device
+                for _ in range(rng.randint(1, 2)):
+                    ops.append(("tok", "IN", 0, "other", rng.random() < 0.85, False, {"busy": rng.choice([0.0, 0.3])}))
+            elif kind == "out_other_ep_data":   # OUT / SETUP transaction (token + data) on another endpoint
+                ops.append(("tok", rng.choice(["OUT", "SETUP"]), 0, rng.choice([0, "other"]), False, True))
+            elif kind == "sof":
                 ops.append(("sof",))
             elif kind == "other_device_acked":
                 if pending != clean:                 # clean: only while nothing is pending; witness: only while pending
@@ -1134,6 +1173,17 @@ def signal_sweep_traces(width):
         ops += [("sig", x), ("idle", 4), ("poll", False, False, 0.0), ("sig", y), ("idle", d), ("poll", d % 2 == 0, False, 0.0),
                 ("poll", True, False, 0.0), ("poll", True, False, 0.0)]
     out.append((ops, "sweep/retry-token-offset"))
+    for n_other in (1, 2):          # lost ACK; n acknowledged IN transactions of another endpoint d cycles later; retry
+        ops = []
+        for d in range(0, 15):
+            x, y = (a, b) if d % 2 else (b, a)
+            ops += [("sig", x), ("idle", 4), ("poll", False, False, 0.0), ("sig", y), ("idle", d)]
+            for i in range(n_other):
+                ops += [("tok", "IN", 0, "other", True, False, {"ack_delay": (d + 5 * i) % 15})]
+            if d % 3 == 0:
+                ops += [("tok", "OUT", 0, "other", False, True)]
+            ops += [("idle", 14 - d), ("poll", d % 2 == 0, False, 0.0), ("poll", True, False, 0.0), ("poll", True, False, 0.0)]
+        out.append((ops, "sweep/lost-ack-then-%d-acked-in-on-other-endpoint" % n_other))
     for n in (1, 2):
         ops = []
         for d in range(0, 16):
@@ -1158,7 +1208,7 @@ def signal_ops_from_behaviour(beh):
             if "win" in ev:
                 ops.append(("poll", bool(ev["ack"]), len(ev["win"]) > 1, 0.3 if len(ev["win"]) > 1 else 0.0))
             else:
-                ops.append(("tok", ev["pid"], ev["addr"], ev["ep"], bool(ev["ack"])))
+                ops.append(("tok", ev["pid"], ev["addr"], ev["ep"], bool(ev["ack"]), bool(ev["hd"])))
     return conf, ops
 
 
